@@ -163,14 +163,14 @@ func getRig(t vh.TB, config string) *rig {
 	})
 	r.fp = vh.NewFakeProxy()
 	r.fp.IdleReply = 50 * time.Millisecond
-	r.fp.OnUploadBytes = func(q *vh.FPRequest, b []byte) {
+	r.fp.SetOnUploadBytes(func(q *vh.FPRequest, b []byte) {
 		r.mu.Lock()
 		m := r.mons[q.ID]
 		r.mu.Unlock()
 		if m != nil {
 			m.pw.Write(b)
 		}
-	}
+	})
 	r.meta = vh.NewFakeMeta()
 	var err error
 	r.agent, err = vh.StartAgent(r.meta, r.fp.URL, r.backend.Addr, agentArgs(config))
@@ -357,6 +357,6 @@ func TestReplay(t *testing.T) {
 		t.Skip("no replay for this part")
 	}
 	for i := 0; i < vh.ReplayRuns(); i++ {
-		rec.Check(t, &c, func() vh.Outcome { return runCase(t, &c) })
+		rec.Check(t, &c, func() vh.Outcome { return vh.Confirm(func(int) vh.Outcome { return runCase(t, &c) }) })
 	}
 }
